@@ -24,7 +24,7 @@ def check_c06(prop, tier, seed):
     t0 = time.time()
     wd = vlib.workdir("%s-%s" % (prop, tier))
     vlib.build_harness()
-    R, maxlen = (16, 3) if tier == "quick" else (32, 3)
+    R, maxlen = (16, 3) if tier == "quick" else (24, 3)     # (4 R)^3 must stay below TLC's 10^6 set limit
     cfg = vlib.tlc_cfg("Spec", {"R": R, "MaxLen": maxlen, "Targets": "{0, 1, 100, 101}"},
                        ["ExactShare", "Residual", "Contiguous", "Certain", "Never"])
     mc = vlib.run_tlc("Sampling", cfg, wd, "mc", workers=8, timeout=1500)
